@@ -2,7 +2,13 @@ from core import Property
 
 VMAX = 2 ** 62 - 1
 WINS = [1, 2, 3, 5, 7, 16, 61, 100, 1000, 4096, 10000, 65536, 1 << 20]
-CODES = [0, 1, 63, 64, 256, 258, 268, 16383, 16384, 2 ** 30 - 1, 2 ** 30, 2 ** 32 + 5, VMAX - 1, VMAX]
+CODES = ([0, 1, 0x33, 63, 64, 16383, 16384, 2 ** 30 - 1, 2 ** 30, 2 ** 32 + 5, VMAX - 1, VMAX]
+         + list(range(0x100, 0x111)) + [0x200, 0x201, 0x202])   # every H3_* / QPACK_* code, the varint form boundaries
+
+
+def any_code(rng):
+    """a peer code: a named one, a small arbitrary one, or an arbitrary 62-bit one"""
+    return rng.choice([rng.choice(CODES), rng.randint(0, 0x400), rng.getrandbits(rng.choice([8, 14, 30, 62]))])
 TIMING_QW = ('stop', 'close', 'timeout', 'areset', 'lclose')
 
 
@@ -68,15 +74,15 @@ class P(Property):
     rule = ('every case is one fresh QUIC connection over loopback UDP between the h3-quinn adapter (side A, used only through the '
             'h3::quic traits) and a raw quinn peer, client or server role, streams opened by A (bidi, uni) or by the peer (uni, bidi), '
             '0..20 earlier streams so that ids vary.  qw: 1..6 DATA frames with payloads 0..64 KiB quick / 0..256 KiB thorough in 1..4 '
-            'chunks, peer stream window and connection window from 1 byte to 1 MiB (partial writes forced whenever the data exceeds the '
+            'chunks (also 5..64 tiny chunks accepted inside one poll_ready call; a few 256 KiB payloads in the quick tier too), the adapter stream dropped right after finish with the peer reading afterwards (drop=1), peer stream window and connection window from 1 byte to 1 MiB (partial writes forced whenever the data exceeds the '
             'window), peer read sizes 1 byte..64 KiB, a second send_data attempted right after the first and/or at the first Pending of '
             'poll_ready, every kind of WriteBuf (DATA, HEADERS, stream type + DATA, stream type alone), raw bytes (0..64 KiB quick / 256 KiB thorough, 1 or 3 chunks) through poll_send afterwards - also with the peer stopping / closing / falling silent while poll_send is blocked -, poll_send attempted while a framed buffer is half written (must be refused), the pending write abandoned and the stream finished (cfin: everything accepted must still arrive, trunc=no), streams opened and connections closed through Connection itself, the opener() handle or a clone of it, send_id queried before/after send_data, while a write is pending, after completion, after finish; faults at '
-            'seeded offsets: peer STOP_SENDING(code), peer close(code), peer silent until the idle timeout, write after finish, local reset(code up to 2^64-1), local close(code). '
+            'seeded offsets (inside a buffer, exactly between two buffers, inside the raw poll_send bytes, or while poll_finish drains an abandoned write): peer STOP_SENDING(code), peer close(code), peer silent until the idle timeout, write after finish, local reset(code up to 2^64-1), local close(code). '
             'qr: peer writes 1..5 chunks; recv_id queried on a fresh stream, WHILE a read is pending, after that read was cancelled, after a '
             'deferred stop, after data, at the end; stop_sending issued while idle / while the read future owns the stream (once or twice); '
             'peer reset(code), close(code), idle timeout, local close; after such a failed read the same stream is polled again 1..3 times, asked for its id, stopped and polled once more (never a panic, connection errors repeat with the same code).  qa: accept/open on a connection lost by peer close(code), local '
             'close, idle timeout, for poll_accept_recv/bidi and for poll_open_bidi/send of BOTH OpenStreams impls (Connection, opener() handle, its clone).  qd: datagrams sent / received through the adapter\'s handlers (quarter ids over all varint forms, payloads '
-            '0..1100 bytes), too large, datagrams disabled by the peer, and after peer close(code) / local close / idle timeout.  Codes from {0,1,63,64,256,...,2^62-1} and seeded 62-bit values.  Compared: bytes received by the peer '
+            '0..1100 bytes), too large, datagrams disabled by the peer, and after peer close(code) / local close / idle timeout.  Codes: every H3_*/QPACK_* value 0x100..0x110, 0x200..0x202, 0x33, varint form boundaries, seeded small (0..0x400) and 8/14/30/62-bit values.  Compared: bytes received by the peer '
             '(length + FNV-1a) when no fault, prefix validity otherwise; refusal and its class; the set of ids reported and the id the '
             'peer sees; error class and code; end-of-stream condition and code seen by the peer.  Not compared (canonicalised): how many '
             'id queries happened, how Quinn split the writes, how much data arrived before a fault.  non-trivial = qw cases in which the '
@@ -113,8 +119,11 @@ class P(Property):
         cwin = rng.choice(WINS + [1 << 22, 1 << 22])
         swin = 1 << 22
         fk = fault_kind or rng.choice(['none'] * 6 + ['stop', 'close', 'afin', 'areset', 'lclose', 'cfin'])
+        if want == 'drop':
+            win = rng.choice([1000, 4096, 65536, 1 << 20])
+            cwin = 1 << 22
         if want is None and fk in ('none', 'stop', 'close', 'lclose'):
-            want = rng.choice([None, None, 'ps'] + (['dblp', 'psp'] if fk == 'none' else ['psfault'] if fk != 'lclose' else []))
+            want = rng.choice([None, None, 'ps'] + (['dblp', 'psp', 'many', 'drop'] if fk == 'none' else ['psfault', 'cf'] if fk != 'lclose' else []))
         if fk == 'timeout':
             win = min(win, 10000)    # the blocked writer must really be blocked with little data
         if fk == 'stop':
@@ -133,8 +142,17 @@ class P(Property):
             n = max(0, min(n, left))
             left -= n
             bufs.append(split_chunks(rng, n))
-        if big and eff >= 1000 and rng.random() < 0.12:
+        if (big and eff >= 1000 and rng.random() < 0.12) or want == 'huge':
+            if eff < 1000:
+                return None
             bufs[rng.randrange(nb)] = split_chunks(rng, 256 * 1024)
+        if want in ('many', 'drop') or rng.random() < 0.1:
+            # a payload of 5..64 small chunks that fit the window: many accepted poll_write calls inside ONE poll_ready
+            k = rng.randint(5, 64)
+            bufs[rng.randrange(nb)] = [rng.randint(1, 4) for _ in range(k)]
+        if want == 'drop':
+            bufs = [b for b in bufs if sum(b) <= 300][:3] or [[7, 7]]
+            nb = len(bufs)
         # other kinds of WriteBuf: HEADERS frame, stream type + DATA frame, stream type alone
         specs = []
         for b in bufs:
@@ -162,6 +180,12 @@ class P(Property):
                 if ps > cap:
                     return None
         psn = 0 if ps == '-' else int(ps)
+        drop = 0
+        if want == 'drop' or (fk == 'none' and want is None and total + psn + 64 <= min(win, cwin) and rng.random() < 0.5):
+            # the stream is dropped right after finish, the peer reads afterwards: everything must fit the windows
+            if total + psn + 64 > min(win, cwin):
+                return None
+            drop = 1
         # a small send window makes every step wait for an ACK (25 ms): only with little data
         sw = rng.choice([7, 100, 5000, 0, 0, 0])
         if sw and total + psn <= 30 * sw and not (fk == 'stop' and sw < 2 * win + 64) and fk != 'timeout':
@@ -169,8 +193,9 @@ class P(Property):
         rd = rng.choice([0, 0, 0, 1, 7, 100, 1000, 65536])
         if rd and (total + psn) // rd > 20000:
             rd = 0
-        code = rng.choice(CODES + [rng.getrandbits(62)])
+        code = any_code(rng)
         fault = 'none'
+        cf = '-'
         if fk in ('stop', 'close', 'timeout'):
             # the peer reads exactly n bytes and then stops / closes / falls silent; A must be blocked at that point:
             # either inside the framed buffers, or (psfault) inside the raw bytes sent with poll_send afterwards
@@ -178,9 +203,20 @@ class P(Property):
                 lo, hi = total, total + psn - eff - 16
             else:
                 lo, hi = 0, total - eff - 16
+            if want == 'cf':
+                # the write of buffer J is abandoned at its first Pending and poll_finish called: the peer fault hits
+                # while poll_finish drains the buffer
+                if not blocking:
+                    return None
+                cf = rng.choice(blocking)
+                lo, hi = sum(wires[:cf]), sum(wires[:cf + 1]) - eff - 16
+                cf = str(cf)
             if hi < lo:
                 return None
             at = rng.randint(lo, hi)
+            bounds = [b for b in (sum(wires[:i]) for i in range(1, nb + 1)) if lo <= b <= hi]
+            if want is None and bounds and rng.random() < 0.4:
+                at = rng.choice(bounds)      # exactly between two buffers
             fault = ('timeout@%d' % at) if fk == 'timeout' else '%s:%d@%d' % (fk, code, at)
         elif fk == 'afin':
             fault = 'afin'
@@ -207,9 +243,13 @@ class P(Property):
             # which buffer is in flight when the fault hits depends on timing
             dbl = '-'
         ids = rng.choice([31, 31, rng.randint(0, 31) | 8])   # bit 3 (after the writes) is reached in every run
-        return ('qw role=%s kind=%s via=%s skip=%d win=%d cwin=%d swin=%d bufs=%s seed=%d ids=%d dbl=%s dblp=%s psp=%s rd=%d ps=%s fault=%s'
+        if drop:
+            dblp = psp = '-'       # nothing is pending when everything fits the window
+            if fault != 'none':
+                return None
+        return ('qw role=%s kind=%s via=%s skip=%d win=%d cwin=%d swin=%d bufs=%s seed=%d ids=%d dbl=%s dblp=%s psp=%s rd=%d ps=%s drop=%d cf=%s fault=%s'
                 % (role, kind, via, skip, win, cwin, swin, ','.join(bufs), rng.randint(0, 255), ids,
-                   dbl, dblp, psp, rd, ps, fault))
+                   dbl, dblp, psp, rd, ps, drop, cf, fault))
 
     def gen_qr(self, rng, big, fault_kind=None):
         role = rng.choice('cs')
@@ -229,7 +269,7 @@ class P(Property):
             chunks.append(n)
         total = sum(chunks)
         fk = fault_kind or rng.choice(['fin'] * 6 + ['reset', 'reset', 'close', 'close', 'lclose'])
-        code = rng.choice(CODES + [rng.getrandbits(62)])
+        code = any_code(rng)
         stop = 'none'
         if fk == 'fin':
             fault = 'fin'
@@ -256,13 +296,14 @@ class P(Property):
         out = []
         big = tier != 'quick'
         q = tier == 'quick'
-        nqw, nqr, nto = (70, 58, 3) if q else (2600, 2000, 60)
+        nqw, nqr, nto = (60, 55, 3) if q else (2600, 2000, 60)
         # guaranteed minimum of every fault family and of every special observation, then the seeded mix
         for fk, n in (('none', 3), ('stop', 4), ('close', 4), ('timeout', 2), ('afin', 3), ('areset', 3), ('lclose', 3), ('cfin', 3)):
             for _ in range(n if q else 12 * n):
                 out.append(self.gen_qw(rng, big, fk))
         for fk, want, n in (('none', 'ps', 6), ('none', 'dblp', 6), ('none', 'psp', 6), ('stop', 'psfault', 3), ('close', 'psfault', 3),
-                            ('timeout', 'psfault', 2), ('lclose', 'ps', 2)):
+                            ('timeout', 'psfault', 2), ('lclose', 'ps', 2), ('none', 'drop', 8), ('none', 'many', 6), ('none', 'huge', 3),
+                            ('stop', 'cf', 3), ('close', 'cf', 3), ('timeout', 'cf', 1)):
             for _ in range(n if q else 12 * n):
                 out.append(self.gen_qw(rng, big, fk, want))
         for fk in ('fin', 'reset', 'close', 'lclose'):
